@@ -3,6 +3,7 @@ from __future__ import annotations
 
 import contextlib
 import json
+import operator
 import os
 import sys
 import time
@@ -50,11 +51,57 @@ WITNESS_TEXT = {
 
 # ---------------------------------------------------------------------------------------------
 # gate alphabet shared with the model: kind code -> (name, #controls, #targets, has angle)
+# (the model treats the kind code, the qubit list and the integer `a` as opaque data: an injective encoding of the
+#  real gate is all that is needed)
+#   0..22   fixed-arity gates, NPAR[k] = number of float parameters (several parameters are packed into `a`)
+#   30      UnitaryMatrix on 1 or 2 targets, `a` = index into UNITARIES[#targets]
+#   100+c   Pauli gate, c = base-4 code of the pauli ids;   200+c  PauliRotation (one angle) with those ids
 # ---------------------------------------------------------------------------------------------
 KINDS = {0: ("X", 0, 1, False), 1: ("H", 0, 1, False), 2: ("CNOT", 1, 1, False), 3: ("RX", 0, 1, True),
-         4: ("RY", 0, 1, True), 5: ("RZ", 0, 1, True), 6: ("SWAP", 0, 2, False)}
+         4: ("RY", 0, 1, True), 5: ("RZ", 0, 1, True), 6: ("SWAP", 0, 2, False),
+         7: ("Y", 0, 1, False), 8: ("Z", 0, 1, False), 9: ("S", 0, 1, False), 10: ("Sdag", 0, 1, False),
+         11: ("SqrtX", 0, 1, False), 12: ("SqrtXdag", 0, 1, False), 13: ("SqrtY", 0, 1, False),
+         14: ("SqrtYdag", 0, 1, False), 15: ("T", 0, 1, False), 16: ("Tdag", 0, 1, False), 17: ("Identity", 0, 1, False),
+         18: ("U1", 0, 1, True), 19: ("CZ", 1, 1, False), 20: ("TOFFOLI", 2, 1, False), 21: ("U2", 0, 1, True),
+         22: ("U3", 0, 1, True)}
+NPAR = {3: 1, 4: 1, 5: 1, 18: 1, 21: 2, 22: 3}
 KIND_OF_NAME = {v[0]: k for k, v in KINDS.items()}
 PAR_KINDS = [3, 4, 5]
+K_UM, K_PAULI, K_PROT = 30, 100, 200
+_R = 2 ** -0.5
+UNITARIES = {1: [((0, 1), (1, 0)), ((1, 0), (0, -1)), ((_R, _R), (_R, -_R)), ((1, 0), (0, 1j))],
+             2: [((1, 0, 0, 0), (0, 1, 0, 0), (0, 0, 0, 1), (0, 0, 1, 0)), ((1, 0, 0, 0), (0, 0, 1, 0), (0, 1, 0, 0), (0, 0, 0, 1)),
+                 ((1, 0, 0, 0), (0, 1, 0, 0), (0, 0, 1, 0), (0, 0, 0, -1))]}
+
+
+def pauli_code(ids) -> int:
+    return sum(int(x) * 4 ** i for i, x in enumerate(ids))
+
+
+def pauli_ids(code: int, m: int):
+    return [(code // 4 ** i) % 4 for i in range(m)]
+
+
+def pack_params(ps) -> int:
+    """several small integral parameters -> one integer (injective for |p| <= 4); one parameter: itself"""
+    vals = []
+    for x in ps:
+        f = float(x)
+        if f != int(f):
+            raise InfraError(f"non-integral angle {f} in an observed gate")
+        vals.append(int(f))
+    if len(vals) <= 1:
+        return vals[0] if vals else 0
+    if any(abs(v) > 4 for v in vals):
+        raise InfraError(f"parameter out of the packing range in {vals}")
+    return sum((v + 4) * 9 ** i for i, v in enumerate(vals))
+
+
+def unpack_params(k: int, a: int):
+    n = NPAR.get(k, 0)
+    if n <= 1:
+        return [a] * n
+    return [(a // 9 ** i) % 9 - 4 for i in range(n)]
 
 
 def enc_gate(g) -> str:
@@ -66,26 +113,61 @@ def real_gate(g):
     from quri_parts.circuit import QuantumGate
 
     k, qs, a, p = g
+    if k >= K_PROT:
+        return QuantumGate(name="PauliRotation", target_indices=tuple(qs), pauli_ids=tuple(pauli_ids(k - K_PROT, len(qs))),
+                           params=(float(a),))
+    if k >= K_PAULI:
+        return QuantumGate(name="Pauli", target_indices=tuple(qs), pauli_ids=tuple(pauli_ids(k - K_PAULI, len(qs))))
+    if k == K_UM:
+        return QuantumGate(name="UnitaryMatrix", target_indices=tuple(qs), unitary_matrix=UNITARIES[len(qs)][a])
     name, nc, nt, ang = KINDS[k]
     return QuantumGate(name=name, target_indices=tuple(qs[nc:]), control_indices=tuple(qs[:nc]),
-                       params=(float(a),) if ang else ())
+                       params=tuple(float(x) for x in unpack_params(k, a)))
+
+
+def named_call(o, g, form: int):
+    """the same gate through the `add_<Name>_gate` convenience method (form 1: the most specific variant)"""
+    k, qs, a, p = g
+    if k >= K_PROT:
+        return o.add_PauliRotation_gate(list(qs), pauli_ids(k - K_PROT, len(qs)), float(a))
+    if k >= K_PAULI:
+        return o.add_Pauli_gate(tuple(qs) if form else list(qs), pauli_ids(k - K_PAULI, len(qs)))
+    if k == K_UM:
+        m = [list(r) for r in UNITARIES[len(qs)][a]]
+        if form and len(qs) == 1:
+            return o.add_SingleQubitUnitaryMatrix_gate(qs[0], m)
+        if form and len(qs) == 2:
+            return o.add_TwoQubitUnitaryMatrix_gate(qs[0], qs[1], m)
+        return o.add_UnitaryMatrix_gate(list(qs), m)
+    name = KINDS[k][0]
+    ps = unpack_params(k, a)
+    return getattr(o, f"add_{name}_gate")(*qs, *[(int(x) if form else float(x)) for x in ps])
 
 
 def gate_struct(g, param, pid):
     """real gate -> [k, qs, a, p]"""
+    import numpy as np
+
     name = g.name
     if name.startswith("Parametric"):
         name = name[len("Parametric"):]
-    k = KIND_OF_NAME[name]
     qs = list(g.control_indices) + list(g.target_indices)
-    a = 0
-    ps = getattr(g, "params", ())
-    if ps:
-        f = float(ps[0])
-        if f != int(f):
-            raise InfraError(f"non-integral angle {f} in an observed gate")
-        a = int(f)
-    return [k, qs, a, None if param is None else pid(param)]
+    ps = tuple(getattr(g, "params", ()))
+    if name == "PauliRotation":
+        k = K_PROT + pauli_code(g.pauli_ids)
+    elif name == "Pauli":
+        k = K_PAULI + pauli_code(g.pauli_ids)
+    elif name == "UnitaryMatrix":
+        k = K_UM
+        m = np.array(g.unitary_matrix, dtype=complex)
+        cat = UNITARIES.get(len(qs), [])
+        hit = [i for i, u in enumerate(cat) if np.array(u).shape == m.shape and np.allclose(np.array(u, dtype=complex), m)]
+        if not hit:
+            raise InfraError("observed a UnitaryMatrix gate whose matrix is not in the catalogue")
+        return [k, qs, hit[0], None if param is None else pid(param)]
+    else:
+        k = KIND_OF_NAME[name]
+    return [k, qs, pack_params(ps), None if param is None else pid(param)]
 
 
 ERR = {"AttributeError": "attr", "ValueError": "value", "IndexError": "index", "TypeError": "type", "KeyError": "key",
@@ -121,6 +203,12 @@ class Interp:
         self.pids: dict = {}  # Parameter -> raw id (first sight)
         self.keep: list = []
         self.hash0: dict[int, int] = {}
+        self.probes: list = []  # captured mapper closures / derivative mappings (no model image)
+        self.flags: list = []  # (op index, key, what, detail): an observation contradicts its direct restatement
+        self.n_ops = 0
+
+    def flag(self, key, what, detail):
+        self.flags.append((self.n_ops, key, what, detail))
 
     # -- helpers --------------------------------------------------------------
     def pid(self, p):
@@ -148,7 +236,113 @@ class Interp:
     def src(self, s):
         if s[0] == "h":
             return self.arg(int(s[1:]))
-        return [real_gate(g) for g in dec_lit(s)]
+        gs = [real_gate(g) for g in dec_lit(s)]
+        return tuple(gs) if s[0] == "T" else gs  # `T…`: the same literal handed over as a tuple
+
+    @staticmethod
+    def vals(txt, form="l"):
+        import numpy as np
+
+        vs = [x for x in txt.split(",")] if txt else []
+        if form == "t":
+            return tuple(float(x) for x in vs)
+        if form == "n":
+            return np.array([float(x) for x in vs], dtype=float)
+        if form == "i":
+            return [int(x) for x in vs]
+        return [float(x) for x in vs]
+
+    def bind_by_dict(self, o, txt):
+        """bind_parameters_by_dict with a caller-owned dict: reversed insertion order, one surplus key;
+        the dict is overwritten afterwards (the bound circuit must not keep it)"""
+        from quri_parts.circuit import Parameter
+
+        d = {}
+        ins = list(o.param_mapping.in_params)
+        if len(ins) != len(self.vals(txt)):
+            # not a complete assignment (only when a history is replayed in a world where the circuit has other
+            # parameters than in the run that generated it): the op then means the plain list form
+            return o.bind_parameters(self.vals(txt))
+        for p_, v in zip(ins, self.vals(txt)):
+            d[p_] = v
+        d[Parameter("not-in-the-circuit")] = 9.0
+        d = dict(reversed(list(d.items())))
+        try:
+            b = o.bind_parameters_by_dict(d)
+            if not self.copying:
+                # documented: the same as bind_parameters with the values in the order of the circuit's parameters
+                try:
+                    ref = [gate_struct(g, None, None) for g in o.bind_parameters([d[p_] for p_ in ins]).gates]
+                except Exception as e:  # noqa: BLE001
+                    ref = "err:" + type(e).__name__
+                got = [gate_struct(g, None, None) for g in b.gates]
+                if got != ref:
+                    self.flag("bind_parameters_by_dict", "bind_parameters_by_dict differs from bind_parameters with the values in parameter order",
+                              {"by_dict": got, "by_sequence": ref, "values_in_parameter_order": [fl2int(d[p_]) for p_ in ins]})
+            return b
+        finally:
+            if not self.copying:
+                for k_ in list(d):
+                    d[k_] = 7.0
+                d.clear()
+
+    # -- captured mappers (no model image) --------------------------------------
+    def probe_eval(self, pr):
+        def num(v):
+            f = complex(v)
+            return int(f.real) if f.imag == 0 and f.real == int(f.real) else repr(f)
+
+        m = pr["m"]
+        outs = list(m.out_params)
+        seq = [num(v) for v in pr["sm"](pr["vals"])]
+        d = pr["mp"](dict(zip(pr["ins"], pr["vals"])))
+        mp = [num(d[p_]) for p_ in outs]
+        der = []
+        for dm in pr["dv"]:
+            row = []
+            for p_ in outs:
+                f = dm.mapping.get(p_)
+                if f is None:
+                    row.append(0)
+                elif hasattr(f, "items"):
+                    row.append([["C" if is_const(q) else "P", num(c)] for q, c in f.items()])
+                else:
+                    row.append("param")
+            der.append([len(dm.in_params), len(dm.out_params), row])
+        return ["probe", seq, mp, der]
+
+    def probe_take(self, o, k, txt):
+        m = o.param_mapping
+        vals = self.vals(txt)
+        pr = {"m": m, "sm": m.seq_mapper, "mp": m.mapper, "dv": list(m.get_derivatives()), "ins": tuple(m.in_params), "vals": vals}
+        out = self.probe_eval(pr)
+        pr["first"] = out
+        self.probes.append(pr)
+        # direct restatement of the documented meaning on the mapping as it is observed now
+        if k in LM:
+            st = self.circ_struct(o)
+            ins, fns = st["ins"], st["fn"]
+        else:
+            ins = [self.pid(p_) for p_ in m.in_params]
+            fns = [["p", x] for x in ins]
+        dv = {}
+        for p_, v in zip(ins, vals):
+            dv[p_] = v
+        want_seq, want_der = [], [[] for _ in ins]
+        for f in fns:
+            terms = [[f[1], 1]] if f[0] == "p" else f[1]
+            want_seq.append(int(sum(c * (1 if q is None else dv[q]) for q, c in terms)))
+            for i, q in enumerate(ins):
+                cs = [c for r, c in terms if r == q]
+                want_der[i].append(0 if not cs else [["C", cs[-1]]])
+        got_der = [r[2] for r in out[3]]
+        if out[1] != want_seq or out[2] != want_seq:
+            self.flag("mapper-value", "seq_mapper / mapper do not compute the linear functions of the observed mapping",
+                      {"seq_mapper": out[1], "mapper": out[2], "want": want_seq, "ins": ins, "fn": fns, "values": [int(v) for v in vals]})
+        if got_der != want_der:
+            self.flag("mapping-derivatives", "get_derivatives() is not the coefficient table of the observed mapping",
+                      {"got": got_der, "want": want_der, "ins": ins, "fn": fns})
+        return out
 
     # -- observation ----------------------------------------------------------
     def circ_struct(self, o):
@@ -157,13 +351,25 @@ class Interp:
             d = {"k": "R", "cls": k, "n": o.qubit_count, "gs": [gate_struct(g, None, self.pid) for g in o.gates],
                  "pm": [], "ub": []}
             if k == "bqc":
-                d["pm"] = [[self.pid(p), fl2int(v)] for p, v in o.parameter_map.items()]
+                pm = o.parameter_map
+                d["pm"] = [[self.pid(p), fl2int(v)] for p, v in pm.items()]
+                self.scribble(pm)
             if k == "iqc":
                 d["hash"] = hash(o)
+            self.scribble(o.gates)
             return d
         if k in ("pqc", "ipqc"):
-            return {"k": "R", "cls": k, "n": o.qubit_count,
-                    "gs": [gate_struct(g, p, self.pid) for g, p in o.gates_and_params], "pm": [], "ub": []}
+            gp = o.gates_and_params
+            d = {"k": "R", "cls": k, "n": o.qubit_count,
+                 "gs": [gate_struct(g, p, self.pid) for g, p in gp], "pm": [], "ub": []}
+            # the `gates` property is the same sequence without the parameters
+            gl = o.gates
+            if [gate_struct(g, None, None)[:3] for g in gl] != [x[:3] for x in d["gs"]]:
+                self.flag("gates-property", "`gates` of a parametric circuit is not the first component of gates_and_params",
+                          {"gates": [gate_struct(g, None, None)[:3] for g in gl], "gates_and_params": [x[:3] for x in d["gs"]]})
+            self.scribble(gp)
+            self.scribble(gl)
+            return d
         if k in ("lqc", "ilqc"):
             m = o.param_mapping
             fn = []
@@ -173,24 +379,75 @@ class Interp:
                     fn.append(["l", [[None if is_const(p) else self.pid(p), fl2int(c)] for p, c in f.items()]])
                 else:
                     fn.append(["p", self.pid(f)])
-            return {"k": "L", "mu": k == "lqc", "ins": [self.pid(p) for p in m.in_params],
-                    "outs": [self.pid(p) for p in m.out_params], "fn": fn, "pc": self.circ_struct(o._circuit)}
+            d = {"k": "L", "mu": k == "lqc", "ins": [self.pid(p) for p in m.in_params],
+                 "outs": [self.pid(p) for p in m.out_params], "fn": fn, "pc": self.circ_struct(o._circuit)}
+            # further public observers of the wrapper (not in the model's value): judged against their restatement
+            triv = bool(o.has_trivial_parameter_mapping)
+            want = trivial_restated(d["ins"], d["outs"], fn)
+            if triv != want:
+                self.flag("has_trivial_parameter_mapping", "has_trivial_parameter_mapping contradicts the observed mapping",
+                          {"got": triv, "want": want, "ins": d["ins"], "outs": d["outs"], "fn": fn})
+            gl = o.gates
+            if [gate_struct(g, None, None)[:3] for g in gl] != [x[:3] for x in d["pc"]["gs"]]:
+                self.flag("gates-property", "`gates` of a linear-mapped circuit differs from the gates of its primitive circuit",
+                          {"gates": [gate_struct(g, None, None)[:3] for g in gl], "primitive": [x[:3] for x in d["pc"]["gs"]]})
+            cnt = o.parameter_count
+            if cnt != len(d["ins"]):
+                self.flag("parameter_count", "parameter_count differs from the number of input parameters", {"got": cnt, "ins": d["ins"]})
+            # keys of the mapping that belong to no output parameter (none on the unchanged tree; a mapping object shared with a
+            # sibling circuit that is updated in place shows up here)
+            d["x"] = {"triv": triv, "pcnt": cnt, "mkeys": sum(1 for q in m.mapping if all(q is not o_ for o_ in m.out_params))}
+            # (not done: writing into `param_mapping.mapping`.  After with_data_updated / combine that is the mapping's own
+            #  plain dict - only the constructor wraps it in a MappingProxyType - so a caller who writes into the
+            #  `Mapping` it was handed does change every circuit sharing the mapping object.  The getter is typed as a
+            #  read-only Mapping and no mutator of a circuit is involved, so the property does not speak about it;
+            #  recorded as an observation in the evidence, see mapping_value_histories.)
+            self.scribble(gl)
+            self.scribble(m.in_params)
+            self.scribble(m.out_params)
+            return d
         raise InfraError(f"cannot observe object of kind {k}")
+
+    def scribble(self, box):
+        """the caller of an observer owns what it got back: overwrite / empty every container that lets us.
+        Only on the real (reference-sharing) run - the copying run is the statement of what must be seen."""
+        if self.copying:
+            return
+        try:
+            if isinstance(box, list):
+                box.clear()
+            elif hasattr(box, "keys"):
+                for k_ in list(box.keys()):
+                    try:
+                        box[k_] = 7.0
+                    except TypeError:
+                        break
+                try:
+                    box.clear()
+                except (TypeError, AttributeError):
+                    pass
+        except Exception:  # noqa: BLE001 - refusing the write is the good outcome
+            pass
 
     def observe(self, i):
         o = self.h[i]
         k = self.vs.kind_of(o)
-        if k == "gs":
-            return {"t": "s", "v": self.circ_struct(o.circuit)}
-        if k == "ps":
-            return {"t": "s", "v": self.circ_struct(o.parametric_circuit)}
+        if k in ("gs", "ps"):
+            c = o.circuit if k == "gs" else o.parametric_circuit
+            r = repr(o)  # must not raise and must not touch the state
+            v = self.circ_struct(c)
+            if type(o).__name__ not in r or o.qubit_count != c.qubit_count:
+                self.flag("state-observers", "repr / qubit_count of a state disagree with its circuit",
+                          {"repr": r[:80], "qubit_count": o.qubit_count, "circuit_qubit_count": c.qubit_count})
+            return {"t": "s", "v": v}
         return {"t": "c", "v": self.circ_struct(o)}
 
     # -- one operation --------------------------------------------------------
     def do(self, op: str):
         f = op.split(":")
+        self.n_ops += 1
         try:
-            with quiet_stderr() if (f[0] == "extend") else contextlib.nullcontext():
+            with quiet_stderr() if (f[0] in ("extend", "iadd")) else contextlib.nullcontext():
                 return self._do(f)
         except InfraError:
             raise
@@ -214,11 +471,21 @@ class Interp:
         if name == "newL":
             self.put(qc.LinearMappedParametricQuantumCircuit(int(f[1])))
             return "ok"
+        if name == "mapEval":
+            i = int(f[1])
+            if i >= len(self.probes):
+                return "err:badop"
+            pr = self.probes[i]
+            out = self.probe_eval(pr)
+            if out != pr["first"]:
+                self.flag("captured-mapper-changed", "a mapper / seq_mapper / derivative mapping taken earlier gives a different result now",
+                          {"probe": i, "first": pr["first"], "now": out})
+            return out
         h = int(f[1])
         if h >= len(self.h):
             return "err:badop"
-        if name in ("addGate", "addPar", "addParL", "addParams", "extend"):
-            o = self.arg(h)
+        if name in ("addGate", "addNamed", "addPar", "addParL", "addParams", "addParam1", "extend", "iadd"):
+            o = val = self.arg(h)
             try:
                 if name == "addGate":
                     g = dec_gate(f[2])
@@ -226,9 +493,44 @@ class Interp:
                         o.add_gate(real_gate(g))
                     else:
                         o.add_gate(real_gate(g), int(f[3]))
+                elif name == "addNamed":
+                    g = dec_gate(f[2])
+                    n0 = len(o.gates)
+                    named_call(o, g, int(f[3]))
+                    if not self.copying:  # add_<Name>_gate(...) is documented as add_gate(<Name>(...))
+                        gl = list(o.gates)
+                        if len(gl) != n0 + 1 or gate_struct(gl[-1], None, None) != gate_struct(real_gate(g), None, None):
+                            self.flag("named-adder", "an add_<Name>_gate method did not append exactly the gate it names",
+                                      {"asked": list(g[:3]), "appended": [gate_struct(x, None, None)[:3] for x in gl[n0:]]})
+                elif name == "iadd":
+                    if not hasattr(type(o), "__iadd__"):
+                        raise AttributeError("no in-place addition")  # (`+=` would silently be `h = h + src`)
+                    ref = None
+                    if not self.copying and self.kind(h) == "lqc":
+                        ref = self.vs.clone(o)  # (the Python wrapper) `+=` is documented as extend: replay that on a private copy
+                    cur = o
+                    try:
+                        cur += self.src(f[2])  # `h += src`: the variable is re-bound to whatever the operator returns
+                        val = cur
+                    finally:
+                        if ref is not None:
+                            try:
+                                ref.extend(self.src(f[2]))
+                            except Exception:  # noqa: BLE001
+                                pass
+                            a_, b_ = strip_hash(self.circ_struct(cur)), strip_hash(self.circ_struct(ref))
+                            if a_ != b_:
+                                self.flag("iadd-vs-extend", "`circuit += gates` left the circuit in another state than circuit.extend(gates)",
+                                          {"after_iadd": a_, "after_extend": b_})
+                elif name == "addParam1":
+                    o.add_parameter("q")
                 elif name == "addPar":
                     qs = [int(x) for x in f[3].split(",")]
-                    getattr(o, f"add_Parametric{KINDS[int(f[2])][0]}_gate")(*qs)
+                    kk = int(f[2])
+                    if kk >= K_PROT:
+                        o.add_ParametricPauliRotation_gate(qs, pauli_ids(kk - K_PROT, len(qs)))
+                    else:
+                        getattr(o, f"add_Parametric{KINDS[kk][0]}_gate")(*qs)
                 elif name == "addParL":
                     qs = [int(x) for x in f[3].split(",")]
                     terms = []
@@ -241,7 +543,11 @@ class Interp:
                             terms.append((self.h[int(hp)].param_mapping.in_params[int(i)], int(c)))
                     angle = terms[0][0] if f[4] == "1" else dict(terms)
                     try:
-                        getattr(o, f"add_Parametric{KINDS[int(f[2])][0]}_gate")(*qs, angle)
+                        kk = int(f[2])
+                        if kk >= K_PROT:
+                            o.add_ParametricPauliRotation_gate(tuple(qs), tuple(pauli_ids(kk - K_PROT, len(qs))), angle)
+                        else:
+                            getattr(o, f"add_Parametric{KINDS[kk][0]}_gate")(*qs, angle)
                     finally:
                         if isinstance(angle, dict) and not self.copying:
                             # the caller re-uses its scratch dict after the call: the circuit must have taken a snapshot
@@ -258,13 +564,17 @@ class Interp:
                     else:
                         o.extend(self.src(s))
             finally:
-                if self.copying:
-                    self.h[h] = o  # the private copy becomes the handle's value (also after a partial failure)
+                if self.copying or val is not o:
+                    self.h[h] = val  # the private copy becomes the handle's value (also after a partial failure)
             return "ok"
         k = self.kind(h)
         is_state = k in ("gs", "ps")
-        if name in ("freeze", "mutCopy", "immCtor", "primitive", "combine", "bind", "getUnbound", "mkState", "depth") and is_state:
+        if name in ("freeze", "mutCopy", "immCtor", "primitive", "combine", "bind", "getUnbound", "mkState", "depth", "mapTake") and is_state:
             return "err:badop"
+        if name == "mapTake":
+            if k not in LM + PAR:
+                return "err:badop"
+            return self.probe_take(self.arg(h), k, f[2])
         if name in ("stCircuit", "stApply", "stBind", "stPrim") and not is_state:
             return "err:badop"
         if name == "freeze":
@@ -291,7 +601,11 @@ class Interp:
         elif name == "bind":
             if k in ("qc", "iqc", "bqc"):
                 return "err:badop"
-            self.put(self.arg(h).bind_parameters([float(x) for x in f[2].split(",")] if f[2] else []))
+            form = f[3] if len(f) > 3 else "l"
+            if form == "d":
+                self.put(self.bind_by_dict(self.arg(h), f[2]))
+            else:
+                self.put(self.arg(h).bind_parameters(self.vals(f[2], form)))
         elif name == "getUnbound":
             if k != "bqc":
                 return "err:badop"
@@ -309,7 +623,7 @@ class Interp:
         elif name == "stBind":
             if k != "ps":
                 return "err:badop"
-            self.put(self.arg(h).bind_parameters([float(x) for x in f[2].split(",")] if f[2] else []))
+            self.put(self.arg(h).bind_parameters(self.vals(f[2], f[3] if len(f) > 3 else "l")))
         elif name == "stPrim":
             if k != "ps":
                 return "err:badop"
@@ -329,6 +643,26 @@ class Interp:
         else:
             raise InfraError(f"unknown op {f}")
         return "ok"
+
+
+def trivial_restated(ins, outs, fns) -> bool:
+    """`is_trivial_mapping` as the code means it: as many outputs as inputs, every output is one input with
+    coefficient 1 (bare or as a one-term function; a CONST-only term counts as a "parameter" there too), no input used twice.
+    Permutations are trivial in that sense - whether they should be is C10's question, not an aliasing matter."""
+    if len(ins) != len(outs):
+        return False
+    used = []
+    for f in fns:
+        if f[0] == "p":
+            q = f[1]
+        else:
+            if len(f[1]) != 1 or f[1][0][1] != 1:
+                return False
+            q = f[1][0][0]
+        if q in used:
+            return False
+        used.append(q)
+    return True
 
 
 def is_const(p) -> bool:
@@ -382,6 +716,8 @@ class Canon:
         out["pm"] = sorted(pm.items())
         if self.with_hash and "hash" in d:
             out["hash"] = d["hash"]
+        if self.with_hash and d.get("x"):
+            out["x"] = d["x"]
         return out
 
     def cv(self, d):
@@ -395,7 +731,10 @@ class Canon:
                 fns.append(["p", self.p(f[1])])
             else:
                 fns.append(["l", [[self.p(t[0]), t[1]] for t in f[1]]])
-        return {"mu": d["mu"], "ins": ins, "outs": outs, "fn": fns, "pc": self.rval(d["pc"])}
+        out = {"mu": d["mu"], "ins": ins, "outs": outs, "fn": fns, "pc": self.rval(d["pc"])}
+        if self.with_hash and d.get("x"):
+            out["x"] = d["x"]
+        return out
 
     def out(self, o):
         if isinstance(o, dict):
@@ -426,8 +765,13 @@ def canon_transcript(outs, model: bool, with_hash=False, ops=None):
     for i, o in enumerate(outs):
         if isinstance(o, dict):
             o = {"t": o["t"], "v": align_model_fn(o["v"]) if model else o["v"]}
-        elif ops is not None and o in ("err:value", "err:type") and ops[i].split(":")[0] in ("combine", "stApply"):
-            o = "err:rejected"
+        elif ops is not None and isinstance(o, str):
+            n_ = ops[i].split(":")[0]
+            if n_ in ("combine", "stApply") and o in ("err:value", "err:type"):
+                o = "err:rejected"
+            elif n_ == "iadd" and o in ("err:value", "err:type", "err:other-NotImplementedError"):
+                # a rejected `+=`: Rust classes raise NotImplementedError, the Python wrapper ends in TypeError
+                o = "err:rejected"
         res.append(c.out(o))
     return res
 
@@ -442,7 +786,49 @@ LM = ("lqc", "ilqc")
 MUT = ("qc", "pqc", "lqc")
 
 
-def rand_gate(rng, n, bad=0.04):
+def rand_gate_ext(rng, n, bad):
+    """the rest of the gate set (everything `MutableQuantumCircuitProtocol.add_*_gate` can add, except Measurement)"""
+    fam = rng.choice(["one", "one", "u", "cz", "toff", "um", "pauli", "prot"])
+    if fam == "cz" and n < 2 or fam == "toff" and n < 3:
+        fam = "one"
+    a = 0
+    if fam == "one":
+        k, qs = rng.choice(range(7, 18)), [rng.randrange(n)]
+    elif fam == "u":
+        k, qs = rng.choice([18, 21, 22]), [rng.randrange(n)]
+        a = pack_params([rng.randint(-3, 3) for _ in range(NPAR[k])])
+    elif fam == "cz":
+        k, qs = 19, rng.sample(range(n), 2)
+    elif fam == "toff":
+        k, qs = 20, rng.sample(range(n), 3)
+    elif fam == "um":
+        m = rng.randint(1, min(n, 2))
+        k, qs, a = K_UM, rng.sample(range(n), m), rng.randrange(len(UNITARIES[m]))
+    else:
+        m = rng.randint(1, min(n, 3))
+        qs = rng.sample(range(n), m)
+        code = pauli_code([rng.randint(1, 3) for _ in range(m)])
+        k = (K_PAULI if fam == "pauli" else K_PROT) + code
+        a = rng.randint(-3, 3) if fam == "prot" else 0
+    if rng.random() < bad:
+        qs[-1] = n + rng.randint(0, 1)
+    return (k, qs, a, None)
+
+
+def rand_par_kind(rng, n):
+    """(kind, qubits) of a parametric gate: RX/RY/RZ or a Pauli rotation on 1-3 qubits"""
+    if rng.random() < 0.75:
+        return rng.choice(PAR_KINDS), [rng.randrange(n) if rng.random() > 0.04 else n]
+    m = rng.randint(1, min(n, 3))
+    qs = rng.sample(range(n), m)
+    if rng.random() < 0.04:
+        qs[-1] = n
+    return K_PROT + pauli_code([rng.randint(1, 3) for _ in range(m)]), qs
+
+
+def rand_gate(rng, n, bad=0.04, ext=True):
+    if ext and rng.random() < 0.3:
+        return rand_gate_ext(rng, n, bad)
     k = rng.choice([0, 0, 1, 1, 2, 2, 3, 4, 5, 6] if n >= 2 else [0, 1, 3, 4, 5])
     _, nc, nt, ang = KINDS[k]
     qs = rng.sample(range(n), nc + nt)
@@ -454,11 +840,12 @@ def rand_gate(rng, n, bad=0.04):
 
 
 def rand_lit(rng, n, bad=0.03):
-    return "L" + "/".join(enc_gate(rand_gate(rng, n, bad)) for _ in range(rng.randint(0, 3)))
+    return ("L" if rng.random() < 0.75 else "T") + "/".join(enc_gate(rand_gate(rng, n, bad)) for _ in range(rng.randint(0, 3)))
 
 
 def gen_history(rng, length: int, profile: str):
-    """returns (ops, real transcript).  The real run guides the generation (which handles exist / their kinds)."""
+    """returns (ops, real transcript, restatement flags of the real run).
+    The real run guides the generation (which handles exist / their kinds)."""
     R = Interp(False)
     n = rng.choice([1, 2, 2, 3])
     ops: list[str] = []
@@ -490,8 +877,11 @@ def gen_history(rng, length: int, profile: str):
             k = R.kind(h)
             x = rng.random()
             if k == "lqc" and x < 0.25:
-                emit(f"addParams:{h}:{rng.randint(1, 2)}")
-            elif k == "lqc" and x < 0.6:
+                if rng.random() < 0.3:
+                    emit(f"addParam1:{h}")
+                else:
+                    emit(f"addParams:{h}:{rng.randint(1, 2)}")
+            elif k == "lqc" and x < 0.68:
                 cnt = R.h[h].parameter_count
                 hp, cp = h, cnt
                 if rng.random() < 0.1:
@@ -506,23 +896,35 @@ def gen_history(rng, length: int, profile: str):
                 terms = [f"{hp}.{i}*{1 if bare else rng.randint(-2, 3)}" for i in idx]
                 if not bare and rng.random() < 0.4:
                     terms.append(f"C*{rng.randint(-2, 2)}")
-                q = rng.randrange(n) if rng.random() > 0.04 else n
-                emit(f"addParL:{h}:{rng.choice(PAR_KINDS)}:{q}:{1 if bare else 0}:{','.join(terms)}")
+                pk, pq = rand_par_kind(rng, n)
+                emit(f"addParL:{h}:{pk}:{','.join(map(str, pq))}:{1 if bare else 0}:{','.join(terms)}")
             elif k == "pqc" and x < 0.5:
-                q = rng.randrange(n) if rng.random() > 0.04 else n
-                emit(f"addPar:{h}:{rng.choice(PAR_KINDS)}:{q}")
+                pk, pq = rand_par_kind(rng, n)
+                emit(f"addPar:{h}:{pk}:{','.join(map(str, pq))}")
             elif x < 0.8:
                 g = rand_gate(rng, n)
                 idx = "-"
+                if rng.random() < (0.6 if k == "lqc" else 0.3) and not (k == "pqc" and g[0] >= K_PROT):
+                    # (the Rust ParametricQuantumCircuit has no add_PauliRotation_gate)
+                    # the same gate through its add_<Name>_gate method (Python for the linear-mapped wrapper, Rust otherwise)
+                    emit(f"addNamed:{h}:{enc_gate(g)}:{rng.randint(0, 1)}")
+                    continue
                 if rng.random() < 0.2:
                     idx = str(rng.randint(0, 4))
                 emit(f"addGate:{h}:{enc_gate(g)}:{idx}")
             else:
+                verb = "extend" if rng.random() < 0.65 or k not in MUT else "iadd"
                 if rng.random() < 0.5:
-                    emit(f"extend:{h}:{rand_lit(rng, n)}")
+                    emit(f"{verb}:{h}:{rand_lit(rng, n)}")
                 else:
                     j = pick(CIRC)
-                    if j is not None and (j != h or rng.random() < 0.3):
+                    if j is not None and verb == "iadd":
+                        # `+=` with an argument `extend` rejects by type falls back to `+` and re-binds the variable:
+                        # that is `combine`, not a mutation - only arguments extend accepts are written as `+=`
+                        rank = {"qc": 0, "iqc": 0, "bqc": 0, "pqc": 1, "ipqc": 1, "lqc": 2, "ilqc": 2}
+                        if rank[R.kind(j)] <= rank[k] and all(R.h[j] is not R.h[i] for i in range(nh) if i == h or R.h[i] is R.h[h]):
+                            emit(f"iadd:{h}:h{j}")
+                    elif j is not None and (j != h or rng.random() < 0.3):
                         emit(f"extend:{h}:h{j}")
             continue
         if r < 0.62:  # derive from a circuit
@@ -551,7 +953,18 @@ def gen_history(rng, length: int, profile: str):
                 if rng.random() < 0.1:
                     cnt = max(0, cnt + rng.choice([-1, 1]))
                 emit(f"obs:{h}")
-                emit(f"bind:{h}:{','.join(str(rng.randint(-3, 3)) for _ in range(cnt))}")
+                form = rng.choice(["", "", ":l", ":t", ":n", ":i", ":d", ":d"] + ([":d", ":d"] if k in LM else []))
+                if form == ":d":  # one value per distinct parameter, no missing key (see bind_by_dict)
+                    ins = list(R.h[h].param_mapping.in_params)
+                    val_of = {}
+                    for p_ in ins:
+                        val_of.setdefault(p_, rng.randint(-3, 3))
+                    emit(f"bind:{h}:{','.join(str(val_of[p_]) for p_ in ins)}:d")
+                else:
+                    emit(f"bind:{h}:{','.join(str(rng.randint(-3, 3)) for _ in range(cnt))}{form}")
+            elif x < 0.9 and k in PAR + LM and rng.random() < 0.6:
+                cnt = R.h[h].parameter_count
+                emit(f"mapTake:{h}:{','.join(str(rng.randint(-3, 3)) for _ in range(cnt))}")
             elif x < 0.9 and k == "bqc":
                 emit(f"getUnbound:{h}")
             else:
@@ -570,7 +983,7 @@ def gen_history(rng, length: int, profile: str):
             elif k == "ps" and x < 0.87:
                 cnt = R.h[h].parametric_circuit.parameter_count
                 emit(f"obs:{h}")
-                emit(f"stBind:{h}:{','.join(str(rng.randint(-3, 3)) for _ in range(cnt))}")
+                emit(f"stBind:{h}:{','.join(str(rng.randint(-3, 3)) for _ in range(cnt))}{rng.choice(['', ':l', ':t', ':n', ':i'])}")
             elif k == "ps":
                 emit(f"stPrim:{h}")
             continue
@@ -581,6 +994,8 @@ def gen_history(rng, length: int, profile: str):
             emit(f"obs:{h}")
         elif x < 0.8 and R.kind(h) in CIRC:
             emit(f"depth:{h}")
+        elif x < 0.86 and R.probes:
+            emit(f"mapEval:{rng.randrange(len(R.probes))}")
         else:
             j = rng.randrange(nh)
             if R.kind(h) in NP + PAR and R.kind(j) in NP + PAR:
@@ -588,10 +1003,43 @@ def gen_history(rng, length: int, profile: str):
     # final sweep: everything is observed, depth last (it fills the caches)
     for i in range(len(R.h)):
         emit(f"obs:{i}")
+    for i in range(len(R.probes)):
+        emit(f"mapEval:{i}")
     for i in range(len(R.h)):
         if R.kind(i) in CIRC and rng.random() < 0.5:
             emit(f"depth:{i}")
-    return ops, outs
+    return ops, outs, R.flags
+
+
+def named_sweeps():
+    """deterministic histories: every add_<Name>_gate method (both call variants) once on each mutable class,
+    with frozen / copied snapshots taken on the way and everything observed at the end"""
+    gates = [(k, list(range(KINDS[k][1] + KINDS[k][2])), pack_params([(-1) ** i * (i + 1) for i in range(NPAR.get(k, 0))]), None) for k in sorted(KINDS)]
+    gates += [(K_UM, [1], 2, None), (K_UM, [2, 0], 1, None), (K_PAULI + pauli_code([1, 3]), [0, 2], 0, None), (K_PAULI + pauli_code([2]), [1], 0, None),
+              (K_PROT + pauli_code([3, 1, 2]), [2, 0, 1], -2, None)]
+    out = []
+    for new, form0 in (("newC", 0), ("newC", 1), ("newP", 0), ("newP", 1), ("newL", 0), ("newL", 1)):
+        ops = [f"{new}:3"]
+        for i, g in enumerate(gates):
+            if new == "newP" and g[0] >= K_PROT:
+                continue
+            ops.append(f"addNamed:0:{enc_gate(g)}:{(form0 + i) % 2}")
+            if i % 7 == 3:
+                ops.append("freeze:0" if i % 2 else "mutCopy:0")
+        n_h = 1 + sum(1 for op in ops if op.split(":")[0] in ("freeze", "mutCopy"))
+        ops += [f"obs:{h}" for h in range(n_h)] + ["depth:0"]
+        out.append(ops)
+    # every way of handing over the values of several parameters (list / tuple / numpy / ints / dict), on a linear-mapped
+    # circuit, its frozen copy, a mutable copy that then gets one more parameter, and on the states made from them
+    out.append(["newL:2", "addParams:0:3", "addParL:0:3:0:0:0.0*1,0.2*2", "addParL:0:4:1:1:0.1*1", "addParL:0:5:0:0:0.2*-1,C*1",
+                "freeze:0", "obs:0", "obs:1", "bind:0:1,2,3:d", "bind:1:3,-1,2:d", "mutCopy:1", "addParam1:4", "addParL:4:3:1:1:4.3*1",
+                "obs:4", "bind:4:1,-2,3,2:d", "bind:4:1,-2,3,2:t", "bind:4:1,-2,3,2:n", "bind:1:3,-1,2:i", "mkState:4", "obs:9",
+                "stBind:9:2,3,-1,1:n", "stBind:9:2,3,-1,1:t", "mapTake:4:1,2,3,-2", "addParL:4:4:0:0:4.0*3", "mapEval:0",
+                "bind:1:0,1,2:d"] + [f"obs:{h}" for h in range(13)])
+    out.append(["newP:2", "addPar:0:3:0", "addPar:0:201:1", "addPar:0:5:0", "obs:0", "bind:0:1,2,3:d", "freeze:0", "bind:2:3,1,-2:d",
+                "bind:2:3,1,-2:n", "addPar:0:4:1", "obs:0", "bind:0:1,2,3,-1:d", "mapTake:0:1,2,3,-1", "addPar:0:4:0", "mapEval:0"]
+               + [f"obs:{h}" for h in range(6)])
+    return out
 
 
 def run_ops(ops, copying: bool):
@@ -599,8 +1047,51 @@ def run_ops(ops, copying: bool):
     return [it.do(op) for op in ops]
 
 
+def run_flags(ops):
+    """real run -> (outputs, flags raised by the restatement checks of the observers)"""
+    it = Interp(False)
+    outs = [it.do(op) for op in ops]
+    return outs, it.flags
+
+
+def to_model(ops):
+    """the model's protocol knows one form per operation: alternative entry points / argument forms of the real API are
+    mapped to the operation they must be equivalent to; probes of captured closures have no model image.
+    Returns (model ops, indices of the real ops that have an image)."""
+    mops, idx = [], []
+    for i, op in enumerate(ops):
+        f = op.split(":")
+        n = f[0]
+        if n in ("mapTake", "mapEval"):
+            continue
+        if n == "addNamed":
+            m = f"addGate:{f[1]}:{f[2]}:-"
+        elif n == "iadd":
+            m = f"extend:{f[1]}:{f[2]}"
+        elif n == "addParam1":
+            m = f"addParams:{f[1]}:1"
+        elif n in ("bind", "stBind") and len(f) > 3:
+            m = ":".join(f[:3])
+        else:
+            m = op
+        if n in ("extend", "iadd", "combine", "stApply"):
+            g = m.split(":")
+            if g[2][0] == "T":
+                g[2] = "L" + g[2][1:]
+                m = ":".join(g)
+        mops.append(m)
+        idx.append(i)
+    return mops, idx
+
+
+def model_view(ops, outs):
+    """(real ops with a model image, their outputs)"""
+    _, idx = to_model(ops)
+    return [ops[i] for i in idx], [outs[i] for i in idx]
+
+
 def model_run(ctx: Ctx, histories, cfg="gen"):
-    reqs = [f"c20run {cfg} | " + ";".join(ops) for ops in histories]
+    reqs = [f"c20run {cfg} | " + ";".join(to_model(ops)[0]) for ops in histories]
     out = []
     for r in ctx.driver(reqs, entry=ENTRY):
         if r == "bad-request":
@@ -627,7 +1118,7 @@ def first_diff(a, b):
 
 def strip_hash(o):
     if isinstance(o, dict):
-        return {k: strip_hash(v) for k, v in o.items() if k != "hash"}
+        return {k: strip_hash(v) for k, v in o.items() if k not in ("hash", "x")}
     if isinstance(o, list):
         return [strip_hash(x) for x in o]
     return o
@@ -663,10 +1154,10 @@ def renumber(op: str, removed_handle: int | None):
         return str(v - 1 if v > removed_handle else v)
 
     try:
-        if f[0] in ("newC", "newP", "newL"):
+        if f[0] in ("newC", "newP", "newL", "mapEval"):
             return op
         f[1] = fix(f[1])
-        if f[0] in ("extend", "combine") and f[2][0] == "h":
+        if f[0] in ("extend", "combine", "iadd") and f[2][0] == "h":
             f[2] = "h" + fix(f[2][1:])
         if f[0] == "eq":
             f[2] = fix(f[2])
@@ -684,7 +1175,20 @@ def renumber(op: str, removed_handle: int | None):
         return None
 
 
-def shrink(ops):
+def first_flag(key):
+    """predicate for `shrink`: index of the first operation at which the real run raises the restatement flag `key`"""
+    def pred(ops):
+        try:
+            _, flags = run_flags(ops)
+        except InfraError:
+            return None
+        hit = [i for i, k, _, _ in flags if k == key]
+        return hit[0] - 1 if hit else None
+    return pred
+
+
+def shrink(ops, real_vs_oracle=None):
+    real_vs_oracle = real_vs_oracle or globals()["real_vs_oracle"]
     ops = list(ops)
     d = real_vs_oracle(ops)
     if d is None:
@@ -747,8 +1251,9 @@ def cache_correspond(ctx: Ctx, n_hist: int):
         ops: list = []
         objs: list = []
         real = []
+        seen_keys: set = set()
         c = QuantumCircuit(2)
-        for g in [rand_gate(rng, 2, 0) for _ in range(rng.randint(0, 4))]:
+        for g in [rand_gate(rng, 2, 0, ext=False) for _ in range(rng.randint(0, 4))]:
             c.add_gate(real_gate(g))
         state = GeneralCircuitQuantumState(2, c)
         gates = list(c.gates)
@@ -783,11 +1288,66 @@ def cache_correspond(ctx: Ctx, n_hist: int):
                 ops.append(f"copy:{h}")
                 objs.append(objs[h].copy())
                 real.append(None)
+            elif r < 0.70 and seen_keys:
+                # the copy of the cache handed out by `cached_groups` belongs to the caller: its keys are the contents asked
+                # for so far; emptying it must not make the factory forget anything (the later `get`s are judged by the model)
+                try:
+                    g_ = fac.cached_groups
+                    ks = set(g_.keys())
+                    for k_ in list(g_):
+                        g_[k_] = ()
+                    g_.clear()
+                except Exception as e:  # noqa: BLE001
+                    ks = "err:" + type(e).__name__
+                ctx.traces += 1
+                ctx.count("cache", "cached_groups")
+                if ks != seen_keys:
+                    ctx.witness("cache:CachedMeasurementFactory", "cached_groups does not list exactly the operator contents asked for so far",
+                                {"ops": ops[:]}, {"got": sorted(map(str, ks)) if isinstance(ks, set) else ks, "want": sorted(map(str, seen_keys))})
+                else:
+                    try:
+                        ks2 = set(fac.cached_groups.keys())
+                    except Exception as e:  # noqa: BLE001
+                        ks2 = "err:" + type(e).__name__
+                    if ks2 != seen_keys:
+                        ctx.witness("cache:CachedMeasurementFactory", "emptying the dict handed out by cached_groups emptied the factory's cache",
+                                    {"ops": ops[:] + ["cached_groups -> overwrite and clear the returned dict -> cached_groups"]},
+                                    {"got": sorted(map(str, ks2)) if isinstance(ks2, set) else ks2, "want": sorted(map(str, seen_keys))})
             else:
                 h = rng.randrange(len(objs))
+                arg = objs[h]
+                argdesc = "the Operator"
+                if rng.random() < 0.3:
+                    # the other argument form: an iterable of Pauli labels (every coefficient 1).  For the model this is a
+                    # new operator with those terms; the caller's container is overwritten after the call
+                    chosen = [rng.choice(labs) for _ in range(rng.randint(0, 3))]
+                    form = rng.choice(["list", "tuple", "set", "gen", "keys"])
+                    box = {"list": list, "tuple": tuple, "set": set, "gen": list, "keys": lambda c_: dict.fromkeys(c_, 5.0)}[form](chosen)
+                    order = list(dict.fromkeys(box))
+                    h = len(objs)
+                    ops.append("new")
+                    real.append(None)
+                    objs.append(Operator())
+                    for p_ in order:
+                        ops.append(f"set:{h}:{labs.index(p_)}:1")
+                        real.append(None)
+                        objs[h][p_] = 1.0
+                    arg = box.keys() if form == "keys" else (x for x in box) if form == "gen" else box
+                    ctx.count("cache", "label-iterable:" + form)
+                    argdesc = f"the labels of operator {h} as a {form} (CachedMeasurementFactory only)"
                 ops.append(f"get:{h}:0")
                 before = len(calls)
-                res = fac(objs[h])
+                try:
+                    res = fac(arg)
+                except Exception as e:  # noqa: BLE001 - the real code's behaviour is an output
+                    ctx.witness("cache:CachedMeasurementFactory", "CachedMeasurementFactory raised on an operator / label iterable",
+                                {"ops": ops[:], "last_get_called_with": argdesc}, {"error": type(e).__name__, "argument": type(arg).__name__})
+                    real.append(None)
+                    continue
+                finally:
+                    if arg is not objs[h] and isinstance(arg, (list, set)):
+                        arg.clear()
+                seen_keys.add(frozenset((p_, complex(v)) for p_, v in objs[h].items()))
                 hit = len(calls) == before
                 content = [[labs.index(p), fl2int(complex(v).real)] for p, v in res]
                 real.append([content, hit])
@@ -796,10 +1356,10 @@ def cache_correspond(ctx: Ctx, n_hist: int):
                     # the cache handed back the result of the underlying function for a different content
                     ctx.witness("cache:CachedMeasurementFactory",
                                 "CachedMeasurementFactory returned the result computed for another operator content",
-                                {"ops": ops[:]}, {"computed_on": sorted(map(str, res)), "current": sorted(map(str, objs[h].items()))})
+                                {"ops": ops[:], "last_get_called_with": argdesc}, {"computed_on": sorted(map(str, res)), "current": sorted(map(str, objs[h].items()))})
                 # (b) real grouping through the cache == grouping of a fresh copy (as label sets)
                 if len(objs[h]) > 0:
-                    got = real_fac(objs[h])
+                    got = real_fac(objs[h] if arg is objs[h] else list(objs[h]))
                     want = bitwise_commuting_pauli_measurement(objs[h].copy())
                     norm = lambda gs: sorted(sorted(str(p) for p in g.pauli_set) for g in gs)  # noqa: E731
                     ctx.traces += 1
@@ -852,6 +1412,607 @@ def cache_correspond(ctx: Ctx, n_hist: int):
 
 
 # ---------------------------------------------------------------------------------------------
+# LinearParameterMapping as a value type: histories of constructor / with_data_updated / combine / get_derivatives /
+# mapper / seq_mapper calls with caller-owned argument containers that are overwritten after every call.
+# Every mapping ever made must (a) be what the documented meaning of the call says (direct restatement below) and
+# (b) observe the same from its creation to the end of the history, whatever happens to the arguments it was built
+# from, to the mappings it was derived from and to the containers its getters returned.
+# ---------------------------------------------------------------------------------------------
+def _mv_fn_value(fn, dv):
+    if fn[0] == "p":
+        return dv[fn[1]]
+    return sum(c * (1 if q is None else dv[q]) for q, c in fn[1])
+
+
+def _mv_restate_derivs(want):
+    """table (per input parameter) of the constant functions d f_out / d p, for the outputs that mention p"""
+    res = []
+    for p_ in want["ins"]:
+        fn = {}
+        for o_, f in want["fn"].items():
+            if f[0] == "p":
+                if f[1] == p_:
+                    fn[o_] = ("l", [(None, 1)])
+            else:
+                cs = [c for q, c in f[1] if q == p_]
+                if cs:
+                    fn[o_] = ("l", [(None, cs[-1])])
+        res.append({"ins": list(want["ins"]), "outs": list(want["outs"]), "fn": fn})
+    return res
+
+
+def mapping_value_histories(ctx: Ctx, n_hist: int):
+    from types import MappingProxyType
+
+    from quri_parts.circuit import CONST, Parameter
+    from quri_parts.circuit.parameter_mapping import LinearParameterMapping
+
+    rng = ctx.rng
+    outer_types = set()
+
+    def num(v):
+        f = complex(v)
+        return int(f.real) if f.imag == 0 and f.real == int(f.real) else repr(f)
+
+    for _ in range(n_hist):
+        pool: list = []
+        log: list[str] = []
+        recs: list[dict] = []  # {"m", "want", "snap", "made_by"}
+        probes: list = []
+
+        def pid(p_):
+            if p_ is CONST:
+                return None
+            for i, q in enumerate(pool):
+                if q is p_:
+                    return i
+            pool.append(p_)
+            return len(pool) - 1
+
+        def fresh(k):
+            ps = [Parameter(f"a{len(pool) + i}") for i in range(k)]
+            for p_ in ps:
+                pid(p_)
+            return ps
+
+        def observe(m):
+            """everything the public getters of a mapping show (exceptions are outputs)"""
+            try:
+                ins = [pid(x) for x in m.in_params]
+                outs = [pid(x) for x in m.out_params]
+                fn = {}
+                for o_, f in m.mapping.items():
+                    fn[pid(o_)] = ("l", [(pid(q), num(c)) for q, c in f.items()]) if hasattr(f, "items") else ("p", pid(f))
+                d = {"ins": ins, "outs": outs, "fn": fn}
+            except Exception as e:  # noqa: BLE001
+                return {"error": type(e).__name__}
+            vals = [float(i + 1) for i in range(len(ins))]
+            for name, call in (("triv", lambda: bool(m.is_trivial_mapping)),
+                               ("seq", lambda: [num(v) for v in m.seq_mapper(vals)]),
+                               ("map", lambda: [num(v) for v in (lambda r: [r[x] for x in m.out_params])(m.mapper(dict(zip(m.in_params, vals))))])):
+                try:
+                    d[name] = call()
+                except Exception as e:  # noqa: BLE001
+                    d[name] = "err:" + type(e).__name__
+            return d
+
+        def restate(want):
+            """the same record from the expected value alone"""
+            d = {"ins": list(want["ins"]), "outs": list(want["outs"]), "fn": dict(want["fn"])}
+            dv = {}
+            for i, p_ in enumerate(want["ins"]):
+                dv[p_] = i + 1
+            ok = all(o_ in want["fn"] for o_ in want["outs"]) and \
+                all(q is None or q in dv for f in want["fn"].values() for q in ([f[1]] if f[0] == "p" else [t[0] for t in f[1]]))
+            d["triv"] = trivial_restated(want["ins"], want["outs"], [list(want["fn"][o_]) if want["fn"][o_][0] == "p" else
+                                                                     ["l", [list(t) for t in want["fn"][o_][1]]]
+                                                                     for o_ in want["outs"]]) if ok else None
+            seq = [int(_mv_fn_value(want["fn"][o_], dv)) for o_ in want["outs"]] if ok else None
+            d["seq"] = d["map"] = seq
+            return d
+
+        def same(got, want_rec):
+            if "error" in got:
+                return False
+            for k_ in ("ins", "outs", "fn"):
+                if got[k_] != want_rec[k_]:
+                    return False
+            # is_trivial_mapping / the mappers are only specified for well-formed mappings
+            return all(want_rec[k_] is None or got[k_] == want_rec[k_] for k_ in ("triv", "seq", "map"))
+
+        def register(m, want, how, scribble):
+            """judge the fresh mapping, then overwrite the caller-owned arguments and judge again"""
+            ctx.traces += 1
+            snap0 = observe(m)
+            if not same(snap0, restate(want)):
+                ctx.witness("mapping:" + how.split(" ")[0], f"the mapping returned by {how.split(' ')[0]} is not what the call documents",
+                            {"calls": log[:]}, {"got": str(snap0)[:400], "want": str(restate(want))[:400]})
+            scribble()
+            snap1 = observe(m)
+            if snap1 != snap0:
+                ctx.witness("mapping-keeps-caller-container", "a mapping changed when the containers it was built from were overwritten after the call",
+                            {"calls": log[:]}, {"before": str(snap0)[:400], "after": str(snap1)[:400]})
+            recs.append({"m": m, "want": want, "snap": snap1, "how": how})
+            # (what `mapping` hands out is deliberately not written to - neither the outer dict nor the linear functions,
+            #  which are plain dicts in derivative mappings - see the note in Interp.circ_struct)
+            outer_types.add(type(m.mapping).__name__)
+            for box in (m.in_params, m.out_params):
+                if isinstance(box, list):
+                    box.clear()
+
+        def rand_fn(ins_ids):
+            """(value, caller-owned object) of a random function of the given inputs"""
+            ins_ids = list(dict.fromkeys(ins_ids))  # (after combine an input may be listed twice)
+            if ins_ids and rng.random() < 0.35:
+                q = rng.choice(ins_ids)
+                return ("p", q), pool[q]
+            qs = rng.sample(ins_ids, rng.randint(0, min(2, len(ins_ids)))) if ins_ids else []
+            terms = [(q, rng.choice([-2, -1, 1, 1, 2, 3])) for q in qs]
+            if rng.random() < 0.4 or not terms:
+                terms.insert(rng.randint(0, len(terms)), (None, rng.randint(-2, 2)))
+            obj = {(CONST if q is None else pool[q]): (float(c) if rng.random() < 0.7 else int(c)) for q, c in terms}
+            if rng.random() < 0.2:
+                obj = MappingProxyType(obj)  # (then nobody, the caller included, can write through this object)
+            return ("l", terms), obj
+
+        def overwrite(*boxes):
+            def go():
+                for b in boxes:
+                    try:
+                        if isinstance(b, list):
+                            b.append(Parameter("late"))
+                            b.reverse()
+                            b.clear()
+                        elif isinstance(b, dict):
+                            for k_, v in list(b.items()):
+                                if isinstance(v, dict):
+                                    for q in list(v):
+                                        v[q] = 7.0
+                                    v.clear()
+                                b[k_] = {CONST: 7.0}
+                            b.clear()
+                    except TypeError:
+                        pass
+            return go
+
+        for _step in range(rng.randint(3, 9)):
+            r = rng.random()
+            if not recs or r < 0.3:
+                ins = fresh(rng.randint(0, 3))
+                outs = fresh(rng.randint(0, 3))
+                ins_ids = [pid(x) for x in ins]
+                fnv, fno = {}, {}
+                for o_ in outs:
+                    fnv[pid(o_)], fno[o_] = rand_fn(ins_ids)
+                want = {"ins": ins_ids, "outs": [pid(x) for x in outs], "fn": fnv}
+                a_in = list(ins) if rng.random() < 0.7 else tuple(ins)
+                a_out = list(outs) if rng.random() < 0.7 else tuple(outs)
+                form = rng.choice(["kw", "pos", "default"]) if not ins and not outs else rng.choice(["kw", "pos"])
+                log.append(f"m{len(recs)} = LinearParameterMapping[{form}](in={want['ins']}, out={want['outs']}, mapping={fnv}) "
+                           f"containers={type(a_in).__name__}/{type(a_out).__name__}/{[type(v).__name__ for v in fno.values()]}; then overwrite them")
+                try:
+                    if form == "kw":
+                        m = LinearParameterMapping(in_params=a_in, out_params=a_out, mapping=fno)
+                    elif form == "pos":
+                        m = LinearParameterMapping(a_in, a_out, fno)
+                    else:
+                        m = LinearParameterMapping()
+                except Exception as e:  # noqa: BLE001
+                    ctx.witness("mapping:LinearParameterMapping", "the constructor rejected a well-formed mapping", {"calls": log[:]}, {"error": type(e).__name__})
+                    continue
+                register(m, want, "LinearParameterMapping " + form, overwrite(a_in, a_out, fno))
+            elif r < 0.6:
+                i = rng.randrange(len(recs))
+                base = recs[i]["want"]
+                add_in = fresh(rng.randint(0, 2)) if rng.random() < 0.6 else []
+                ins_ids = base["ins"] + [pid(x) for x in add_in]
+                add_out = fresh(rng.randint(0, 2)) if rng.random() < 0.7 else []
+                fnv, fno = {}, {}
+                for o_ in add_out:
+                    fnv[pid(o_)], fno[o_] = rand_fn(ins_ids)
+                if base["outs"] and rng.random() < 0.25:  # redefine the function of an existing output
+                    o_ = rng.choice(base["outs"])
+                    fnv[o_], fno[pool[o_]] = rand_fn(ins_ids)
+                want = {"ins": ins_ids, "outs": base["outs"] + [pid(x) for x in add_out], "fn": {**base["fn"], **fnv}}
+                kw = {}
+                a_in, a_out = list(add_in), list(add_out)
+                if add_in or rng.random() < 0.5:
+                    kw["in_params_addition"] = a_in
+                if add_out or rng.random() < 0.5:
+                    kw["out_params_addition"] = a_out
+                if fno or rng.random() < 0.5:
+                    kw["mapping_update"] = fno
+                log.append(f"m{len(recs)} = m{i}.with_data_updated({', '.join(kw)}) in+={[pid(x) for x in add_in]} out+={[pid(x) for x in add_out]} "
+                           f"update={fnv}; then overwrite the arguments")
+                try:
+                    m = recs[i]["m"].with_data_updated(**kw)
+                except Exception as e:  # noqa: BLE001
+                    ctx.witness("mapping:with_data_updated", "with_data_updated raised on a well-formed update", {"calls": log[:]}, {"error": type(e).__name__})
+                    continue
+                register(m, want, "with_data_updated", overwrite(a_in, a_out, fno))
+            elif r < 0.75:
+                i, j = rng.randrange(len(recs)), rng.randrange(len(recs))
+                a, b = recs[i]["want"], recs[j]["want"]
+                want = {"ins": a["ins"] + b["ins"], "outs": a["outs"] + b["outs"], "fn": {**a["fn"], **b["fn"]}}
+                log.append(f"m{len(recs)} = m{i}.combine(m{j})")
+                try:
+                    m = recs[i]["m"].combine(recs[j]["m"])
+                except Exception as e:  # noqa: BLE001
+                    ctx.witness("mapping:combine", "combine raised", {"calls": log[:]}, {"error": type(e).__name__})
+                    continue
+                register(m, want, "combine", lambda: None)
+            elif r < 0.9:
+                i = rng.randrange(len(recs))
+                base = recs[i]["want"]
+                if not all(o_ in base["fn"] for o_ in base["outs"]):
+                    continue
+                log.append(f"m{len(recs)}.. = m{i}.get_derivatives()")
+                try:
+                    ds = list(recs[i]["m"].get_derivatives())
+                except Exception as e:  # noqa: BLE001
+                    ctx.witness("mapping:get_derivatives", "get_derivatives raised", {"calls": log[:]}, {"error": type(e).__name__})
+                    continue
+                wants = _mv_restate_derivs(base)
+                if len(ds) != len(wants):
+                    ctx.witness("mapping:get_derivatives", "get_derivatives does not return one mapping per input parameter",
+                                {"calls": log[:]}, {"got": len(ds), "want": len(wants)})
+                    continue
+                for dm, w in zip(ds, wants):
+                    register(dm, w, "get_derivatives", lambda: None)
+            else:
+                i = rng.randrange(len(recs))
+                m = recs[i]["m"]
+                w = recs[i]["want"]
+                vals = [float(rng.randint(-3, 3)) for _ in w["ins"]]
+                log.append(f"take m{i}.mapper / m{i}.seq_mapper, values {[int(v) for v in vals]}")
+                try:
+                    sm, mp = m.seq_mapper, m.mapper
+                    first = ([num(v) for v in sm(vals)], {pid(k_): num(v) for k_, v in mp(dict(zip(m.in_params, vals))).items()})
+                except Exception as e:  # noqa: BLE001
+                    first = "err:" + type(e).__name__
+                    sm = mp = None
+                probes.append((i, sm, mp, vals, first, tuple(m.in_params)))
+                if sm is not None:
+                    # documented: a value sequence of the wrong length is rejected with ValueError
+                    bad = vals + [1.0] if rng.random() < 0.5 or not vals else vals[:-1]
+                    try:
+                        sm(bad)
+                        got = "accepted"
+                    except ValueError:
+                        got = "ValueError"
+                    except Exception as e:  # noqa: BLE001
+                        got = type(e).__name__
+                    ctx.traces += 1
+                    if got != "ValueError":
+                        ctx.witness("mapping:seq_mapper-length", "seq_mapper did not reject a value sequence of the wrong length with ValueError",
+                                    {"calls": log[:], "values": len(bad), "parameters": len(vals)}, {"got": got})
+                if sm is not None and all(o_ in w["fn"] for o_ in w["outs"]):
+                    dv = {}
+                    for p_, v in zip(w["ins"], vals):
+                        dv[p_] = v
+                    want_seq = [int(_mv_fn_value(w["fn"][o_], dv)) for o_ in w["outs"]]
+                    ctx.traces += 1
+                    if first[0] != want_seq or [first[1].get(o_) for o_ in w["outs"]] != want_seq:
+                        ctx.witness("mapping:mapper", "mapper / seq_mapper do not compute the mapping's linear functions",
+                                    {"calls": log[:]}, {"seq_mapper": first[0], "mapper": str(first[1]), "want": want_seq})
+        # the end of the history: nothing ever made may have changed
+        for n_, rec in enumerate(recs):
+            now = observe(rec["m"])
+            ctx.traces += 1
+            if now != rec["snap"]:
+                ctx.witness("mapping-value-changed-later", f"mapping m{n_} ({rec['how']}) observes differently at the end of the history than when it was made",
+                            {"calls": log[:]}, {"made": str(rec["snap"])[:400], "now": str(now)[:400]})
+        for i, sm, mp, vals, first, ins in probes:
+            if sm is None:
+                continue
+            try:
+                now = ([num(v) for v in sm(vals)], {pid(k_): num(v) for k_, v in mp(dict(zip(ins, vals))).items()})
+            except Exception as e:  # noqa: BLE001
+                now = "err:" + type(e).__name__
+            ctx.traces += 1
+            if now != first:
+                ctx.witness("mapping-closure-changed-later", f"the mapper / seq_mapper taken from m{i} gives a different result at the end of the history",
+                            {"calls": log[:]}, {"first": str(first)[:300], "now": str(now)[:300]})
+        ctx.case(("mapping", tuple(log)), nontrivial=len(recs) > 1, sample={"mapping_calls": log[:4]})
+        ctx.count("mapping", "histories")
+        ctx.count("mapping", "mappings", len(recs))
+    ctx.extra.setdefault("observations_not_judged", []).append(
+        "LinearParameterMapping.mapping hands out " + "/".join(sorted(outer_types)) + ": after with_data_updated / combine it is the "
+        "mapping's own plain dict (only the constructor wraps it in a MappingProxyType), so writing into the returned `Mapping` "
+        "changes every circuit that shares the mapping object (e.g. lqc.freeze() and lqc). No circuit mutator is involved and the "
+        "getter is typed read-only, so C20 does not judge it.")
+
+
+# ---------------------------------------------------------------------------------------------
+# circuits with classical bits (`measure` in both argument forms) and the state constructors' remaining branches
+# (default circuit, documented qubit-count error): small random histories judged by a direct restatement -
+# every call appends one known gate to one known handle; frozen / copied / combined / bound handles keep their prefix.
+# ---------------------------------------------------------------------------------------------
+def measure_histories(ctx: Ctx, n_hist: int):
+    import quri_parts.circuit as qc
+    from quri_parts.core.state import GeneralCircuitQuantumState, ParametricCircuitQuantumState
+
+    rng = ctx.rng
+
+    class RealErr(Exception):
+        pass
+
+    def real(f):
+        """a call into the library: only its exceptions are outputs"""
+        try:
+            return f()
+        except Exception as e:  # noqa: BLE001
+            raise RealErr(f"{type(e).__name__}: {e}"[:160]) from None
+
+    def desc(g):
+        return [g.name.replace("Parametric", ""), list(g.control_indices) + list(g.target_indices), list(getattr(g, "classical_indices", ()))]
+
+    def show(o):
+        try:
+            c = o
+            if isinstance(o, GeneralCircuitQuantumState):
+                c = o.circuit
+            elif isinstance(o, ParametricCircuitQuantumState):
+                c = o.parametric_circuit
+            return {"gates": [desc(g) for g in c.gates], "cbits": c.cbit_count, "n": c.qubit_count}
+        except Exception as e:  # noqa: BLE001
+            return {"error": type(e).__name__}
+
+    for _ in range(n_hist):
+        fam = rng.choice(["qc", "pqc", "lqc", "lqc"])
+        n, cb = rng.randint(1, 3), rng.randint(1, 3)
+        log = [f"c0 = {fam}({n}, cbit_count={cb})"]
+        cls = {"qc": qc.QuantumCircuit, "pqc": qc.ParametricQuantumCircuit, "lqc": qc.LinearMappedParametricQuantumCircuit}[fam]
+        hs = [cls(n, cb)]  # handles
+        exp = [[]]  # expected gate descriptors
+        mut = [True]
+        xs = {}
+        # known finding get_mutable_copy-keeps-is_immutable-flag (non-parametric Rust family only): freeze() of a circuit made by
+        # `+` / get_mutable_copy() may return that very object - such handles are not frozen / wrapped in a state here
+        taint = [False]
+
+        def witness(what, detail, key="classical-bits-history"):
+            ctx.witness(key, what, {"calls": log[:]}, detail)
+
+        for _step in range(rng.randint(3, 10)):
+            taint += [False] * (len(hs) - len(taint))
+            i = rng.randrange(len(hs))
+            o = hs[i]
+            r = rng.random()
+            try:
+                if mut[i] and r < 0.3:
+                    q, c = rng.randrange(n), rng.randrange(cb)
+                    if rng.random() < 0.5:
+                        log.append(f"c{i}.measure({q}, {c})")
+                        real(lambda: o.measure(q, c))
+                        exp[i].append(["Measurement", [q], [c]])
+                    else:
+                        k = rng.randint(1, min(n, cb))
+                        qs, cs = rng.sample(range(n), k), rng.sample(range(cb), k)
+                        log.append(f"c{i}.measure({qs}, {cs})")
+                        real(lambda: o.measure(qs, cs))
+                        exp[i].append(["Measurement", qs, cs])
+                elif mut[i] and r < 0.45:
+                    q = rng.randrange(n)
+                    log.append(f"c{i}.add_H_gate({q})")
+                    real(lambda: o.add_H_gate(q))
+                    exp[i].append(["H", [q], []])
+                elif mut[i] and r < 0.55 and fam != "qc":
+                    q = rng.randrange(n)
+                    if fam == "lqc":
+                        if i not in xs:
+                            xs[i] = real(lambda: o.add_parameter("x"))
+                        log.append(f"c{i}.add_ParametricRY_gate({q}, {{x{i}: 2}})")
+                        real(lambda: o.add_ParametricRY_gate(q, {xs[i]: 2.0}))
+                    else:
+                        log.append(f"c{i}.add_ParametricRY_gate({q})")
+                        real(lambda: o.add_ParametricRY_gate(q))
+                    exp[i].append(["RY", [q], []])
+                elif mut[i] and r < 0.62:
+                    q, c = rng.randrange(n), rng.randrange(cb)
+                    log.append(f"c{i} += [Measurement([{q}], [{c}])]")
+                    hs[i] = real(lambda: operator.iadd(o, [qc.Measurement([q], [c])]))
+                    exp[i].append(["Measurement", [q], [c]])
+                elif taint[i] and (r < 0.74 or r >= 0.9):
+                    continue
+                elif r < 0.74 and not isinstance(o, (GeneralCircuitQuantumState, ParametricCircuitQuantumState)):
+                    log.append(f"c{len(hs)} = c{i}.freeze()")
+                    hs.append(real(lambda: o.freeze())); exp.append(list(exp[i])); mut.append(False)
+                elif r < 0.82 and not isinstance(o, (GeneralCircuitQuantumState, ParametricCircuitQuantumState)):
+                    log.append(f"c{len(hs)} = c{i}.get_mutable_copy()")
+                    hs.append(real(lambda: o.get_mutable_copy())); exp.append(list(exp[i])); mut.append(True); taint.append(fam == "qc")
+                    if i in xs:
+                        xs[len(hs) - 1] = xs[i]
+                elif r < 0.9 and not isinstance(o, (GeneralCircuitQuantumState, ParametricCircuitQuantumState)):
+                    q, c = rng.randrange(n), rng.randrange(cb)
+                    log.append(f"c{len(hs)} = c{i} + [Measurement([{q}], [{c}])]")
+                    hs.append(real(lambda: o + [qc.Measurement([q], [c])])); exp.append(exp[i] + [["Measurement", [q], [c]]]); mut.append(True)
+                    taint.append(fam == "qc")
+                    if i in xs:
+                        xs[len(hs) - 1] = xs[i]
+                elif not isinstance(o, (GeneralCircuitQuantumState, ParametricCircuitQuantumState)):
+                    st = GeneralCircuitQuantumState if type(o) in (qc.QuantumCircuit, qc.ImmutableQuantumCircuit) else ParametricCircuitQuantumState
+                    log.append(f"c{len(hs)} = {st.__name__}({n}, c{i})")
+                    hs.append(real(lambda: st(n, o))); exp.append(list(exp[i])); mut.append(False)
+                else:
+                    q = rng.randrange(n)
+                    log.append(f"c{len(hs)} = c{i}.with_gates_applied([H({q})])")
+                    hs.append(real(lambda: o.with_gates_applied([qc.H(q)]))); exp.append(exp[i] + [["H", [q], []]]); mut.append(False)
+            except RealErr as e:  # every call above is well-formed
+                witness("a well-formed call on a circuit with classical bits raised", {"error": str(e)})
+                break
+        ctx.traces += 1
+        taint += [False] * (len(hs) - len(taint))
+        for i, o in enumerate(hs):
+            got = show(o)
+            want = {"gates": exp[i], "cbits": cb, "n": n}
+            if got != want:
+                witness(f"handle c{i} does not hold the gates its own history gave it (a later call on another handle leaked in, or classical bits were lost)",
+                        {"handle": i, "got": str(got)[:400], "want": str(want)[:400]})
+                break
+        ctx.case(("cbits", tuple(log)), nontrivial=len(hs) > 1, sample={"cbit_calls": log[:5]})
+        ctx.count("cbits", "histories")
+
+
+def state_ctor_checks(ctx: Ctx):
+    """default circuit of GeneralCircuitQuantumState and the documented ValueError of both state constructors"""
+    import quri_parts.circuit as qc
+    from quri_parts.core.state import GeneralCircuitQuantumState as GS, ParametricCircuitQuantumState as PS
+
+    def fail(what, inp, detail):
+        ctx.witness("state-constructor", what, inp, detail)
+
+    for n in (1, 2, 3, 5):
+        for form in ("omitted", "None"):
+            ctx.traces += 1
+            try:
+                s = GS(n) if form == "omitted" else GS(n, None)
+                t = GS(n)
+                s2 = s.with_gates_applied([qc.H(0)])
+                s3 = s2.with_gates_applied((qc.X(n - 1),))
+                m = s.circuit.get_mutable_copy()
+                m.add_X_gate(0)
+                got = [s.qubit_count, s.circuit.qubit_count, len(s.circuit.gates), len(t.circuit.gates),
+                       [g.name for g in s2.circuit.gates], [g.name for g in s3.circuit.gates], len(m.gates)]
+            except Exception as e:  # noqa: BLE001
+                got = "err:" + type(e).__name__
+            want = [n, n, 0, 0, ["H"], ["H", "X"], 1]
+            if got != want:
+                fail("a state built without a circuit is not the empty-circuit state, or states derived from it leak into it",
+                     {"n_qubits": n, "circuit_argument": form}, {"got": got, "want": want})
+    for n in (1, 2, 3):
+        for dn in (-1, 1, 2):
+            if n + dn < 1:
+                continue
+            c = qc.QuantumCircuit(n)
+            c.add_H_gate(0)
+            p = qc.ParametricQuantumCircuit(n)
+            p.add_ParametricRX_gate(0)
+            l = qc.LinearMappedParametricQuantumCircuit(n)
+            x = l.add_parameter("x")
+            l.add_ParametricRZ_gate(n - 1, {x: 2.0})
+            for name, ctor, arg in (("GeneralCircuitQuantumState", GS, c), ("GeneralCircuitQuantumState", GS, c.freeze()),
+                                    ("ParametricCircuitQuantumState", PS, p), ("ParametricCircuitQuantumState", PS, l),
+                                    ("ParametricCircuitQuantumState", PS, l.freeze())):
+                ctx.traces += 1
+                try:
+                    ctor(n + dn, arg)
+                    got = "accepted"
+                except ValueError:
+                    got = "ValueError"
+                except Exception as e:  # noqa: BLE001
+                    got = type(e).__name__
+                if got != "ValueError" or len(arg.gates) != 1:
+                    fail(f"{name}(n_qubits, circuit) with a different qubit count must be rejected with ValueError and leave the circuit alone",
+                         {"n_qubits": n + dn, "circuit": type(arg).__name__, "circuit_qubit_count": n}, {"got": got, "gates_after": len(arg.gates)})
+    ctx.count("state-constructor", "cases", 8 + 3 * 5 * 3 - 5)
+
+
+# ---------------------------------------------------------------------------------------------
+# rejected calls ("rejected with an error rather than mis-handled"): qubit-count mismatch in extend / + / += for every pair of
+# circuit classes, a gate list with an out-of-range gate on the left of `+`, a parametric circuit with a foreign kind of
+# parameter mapping.  The call must raise and BOTH operands must observe exactly as before.
+# ---------------------------------------------------------------------------------------------
+def rejected_call_checks(ctx: Ctx):
+    import quri_parts.circuit as qc
+
+    reg: dict = {}
+
+    def id(q):  # noqa: A001 - identity of a Parameter (the Rust classes hand out a new wrapper object per access)
+        return reg.setdefault(q, len(reg))
+
+    def snap(o):
+        d = {"cls": type(o).__name__, "n": o.qubit_count,
+             "gates": [(g.name, tuple(g.control_indices) + tuple(g.target_indices), tuple(getattr(g, "params", ()))) for g in o.gates]}
+        if hasattr(o, "param_mapping"):
+            m = o.param_mapping
+            d["ins"] = [id(q) for q in m.in_params]
+            d["outs"] = [id(q) for q in m.out_params]
+            d["fn"] = {id(k_): (id(f) if not hasattr(f, "items") else tuple((id(q), c) for q, c in f.items())) for k_, f in m.mapping.items()}
+        return d
+
+    keep = []
+
+    def build(fam, n):
+        """a circuit of the family with an X, and (parametric families) one parametric gate"""
+        base = {"qc": qc.QuantumCircuit, "iqc": qc.QuantumCircuit, "pqc": qc.ParametricQuantumCircuit, "ipqc": qc.ParametricQuantumCircuit,
+                "lqc": qc.LinearMappedParametricQuantumCircuit, "ilqc": qc.LinearMappedParametricQuantumCircuit}[fam](n)
+        base.add_X_gate(n - 1)
+        if fam in ("pqc", "ipqc"):
+            base.add_ParametricRX_gate(0)
+        if fam in ("lqc", "ilqc"):
+            x = base.add_parameter("x")
+            keep.append(x)
+            base.add_ParametricRZ_gate(0, {x: 2.0, qc.CONST: 1.0})
+        return base.freeze() if fam.startswith("i") else base
+
+    class Foreign:
+        """quacks like a parametric circuit; its parameter mapping is not a LinearParameterMapping"""
+        qubit_count, cbit_count, depth, parameter_count, gates, has_trivial_parameter_mapping = 2, 0, 0, 0, (), True
+        param_mapping = object()
+
+        def bind_parameters(self, params): raise NotImplementedError
+        def bind_parameters_by_dict(self, d): raise NotImplementedError
+        def freeze(self): return self
+        def get_mutable_copy(self): return self
+        def primitive_circuit(self): return qc.ParametricQuantumCircuit(2).freeze()
+        def __add__(self, o): return NotImplemented
+        def __radd__(self, o): return NotImplemented
+
+    def attempt(what, inp, f, operands, only=None):
+        before = [snap(o) for o in operands]
+        try:
+            f()
+            got = "accepted"
+        except (ValueError, TypeError, NotImplementedError) as e:
+            got = type(e).__name__
+        except Exception as e:  # noqa: BLE001
+            got = "other:" + type(e).__name__
+        after = [snap(o) for o in operands]
+        ctx.traces += 1
+        ok = got in (only or ("ValueError", "TypeError", "NotImplementedError"))
+        if not ok or before != after:
+            ctx.witness("rejected-call", what, inp, {"outcome": got, "operands_changed": before != after,
+                                                      "before": str(before)[:300], "after": str(after)[:300]})
+
+    fams = ("qc", "iqc", "pqc", "ipqc", "lqc", "ilqc")
+    cnt = 0
+    for n, m in ((2, 3), (3, 2), (1, 2), (2, 1)):
+        for fa in fams:
+            for fb in fams:
+                a, b = build(fa, n), build(fb, m)
+                inp = {"left": f"{fa}({n})", "right": f"{fb}({m})"}
+                if fa == "lqc":
+                    # the wrapper's own documented check (a foreign Rust circuit may be refused by type instead)
+                    attempt("extend with a circuit of another qubit count must raise ValueError and leave both circuits alone",
+                            dict(inp, call="left.extend(right)"), lambda: a.extend(b), [a, b],
+                            only=("ValueError",))
+                    attempt("`+=` with a circuit of another qubit count must raise and leave both circuits alone",
+                            dict(inp, call="left += right"), lambda: operator.iadd(a, b), [a, b])
+                if "lqc" in fa or "lqc" in fb:
+                    attempt("`+` of circuits with different qubit counts must raise and leave both circuits alone",
+                            dict(inp, call="left + right"), lambda: a + b, [a, b])
+                cnt += 1
+    for fa in ("lqc", "ilqc"):
+        for n in (1, 2, 3):
+            a = build(fa, n)
+            for form in (list, tuple):
+                gs = form([qc.H(0), qc.X(n)])
+                attempt("a gate sequence with an out-of-range gate + linear-mapped circuit must raise and leave the circuit alone",
+                        {"call": f"{form.__name__}[H(0), X({n})] + {fa}({n})"}, lambda: gs + a, [a])
+                attempt("linear-mapped circuit + a gate sequence with an out-of-range gate must raise and leave the circuit alone",
+                        {"call": f"{fa}({n}) + {form.__name__}[H(0), X({n})]"}, lambda: a + gs, [a])
+                cnt += 2
+    a = build("lqc", 2)
+    f_ = Foreign()
+    if isinstance(f_, qc.ParametricQuantumCircuitProtocol):
+        attempt("extend with a parametric circuit whose parameter mapping is not linear must raise ValueError and leave the circuit alone",
+                {"call": "lqc(2).extend(<parametric circuit with a foreign param_mapping>)"}, lambda: a.extend(f_), [a], only=("ValueError",))
+        cnt += 1
+    ctx.count("rejected-call", "cases", cnt)
+
+
+# ---------------------------------------------------------------------------------------------
 # exhaustive small scopes (thorough tier): every history of a given length over a small alphabet
 # ---------------------------------------------------------------------------------------------
 def small_alphabet(R: "Interp", family: str):
@@ -870,6 +2031,12 @@ def small_alphabet(R: "Interp", family: str):
                 out.append(f"addParams:{h}:1")
                 if R.h[h].parameter_count:
                     out.append(f"addParL:{h}:4:0:1:{h}.0*1")
+                # the Python wrapper's other entry points: add_<Name>_gate, `+=`
+                out.append(f"addNamed:{h}:9.1.0.-:0")
+                out.append(f"iadd:{h}:T1.1.0.-")
+                for j, kj in enumerate(kinds):
+                    if kj in CIRC and j != h and all(R.h[j] is not R.h[i] for i in range(nh) if R.h[i] is R.h[h]):
+                        out.append(f"iadd:{h}:h{j}")
             for j, kj in enumerate(kinds):
                 if kj in CIRC and j != h:
                     out.append(f"extend:{h}:h{j}")
@@ -879,6 +2046,10 @@ def small_alphabet(R: "Interp", family: str):
                 out.append(f"primitive:{h}")
                 cnt = R.h[h].parameter_count
                 out.append(f"bind:{h}:{','.join(['2'] * cnt)}")
+                if k in LM and cnt:
+                    out.append(f"bind:{h}:{','.join(['2'] * cnt)}:d")
+                    if len(R.probes) < 2:
+                        out.append(f"mapTake:{h}:{','.join(str(i + 1) for i in range(cnt))}")
             if k == "bqc":
                 out.append(f"getUnbound:{h}")
             for j, kj in enumerate(kinds):
@@ -906,7 +2077,7 @@ def enumerate_histories(family: str, depth: int, limit: int):
         for op in prefix:
             R.do(op)
         if len(prefix) == depth:
-            out.append(prefix + [f"obs:{i}" for i in range(len(R.h))])
+            out.append(prefix + [f"obs:{i}" for i in range(len(R.h))] + [f"mapEval:{i}" for i in range(len(R.probes))])
             return
         for op in small_alphabet(R, family):
             rec(prefix + [op])
@@ -925,14 +2096,17 @@ def exhaustive(ctx: Ctx, depth: int, limit: int, families=("np", "par", "lm")):
             chunk = hs[lo: lo + 3000]
             models = model_run(ctx, chunk)
             for ops, m in zip(chunk, models):
-                real = run_ops(ops, False)
+                real, flags = run_flags(ops)
+                report_flags(ctx, ops, flags)
                 cr = canon_transcript(real, False, with_hash=True, ops=ops)
-                cm = canon_transcript(m["impl"], True, ops=ops)
+                vops, vreal = model_view(ops, real)
+                crm = canon_transcript(vreal, False, ops=vops)
+                cm = canon_transcript(m["impl"], True, ops=vops)
                 ctx.traces += 1
                 ctx.evaluations += 1
-                d = first_diff(strip_hash(cr), cm)
+                d = first_diff(crm, cm)
                 if d is not None:
-                    ctx.disagree("impl-model-vs-real(exhaustive)", {"history": ops[: d + 1]}, strip_hash(cr)[d] if d < len(cr) else None,
+                    ctx.disagree("impl-model-vs-real(exhaustive)", {"history": vops[: d + 1]}, crm[d] if d < len(crm) else None,
                                  cm[d] if d < len(cm) else None)
                 safe = all(m["safe"])
                 if safe and not m["refines"]:
@@ -978,6 +2152,18 @@ def gen(ctx: Ctx):
         return info
 
 
+def report_flags(ctx: Ctx, ops, flags) -> int:
+    """an observer of the real objects contradicted the direct restatement of its documented meaning"""
+    seen = set()
+    for i, key, what, detail in flags:
+        if key in seen:
+            continue
+        seen.add(key)
+        small = shrink(ops[:i], first_flag(key))
+        ctx.witness("observer:" + key, what, {"history": small}, detail)
+    return len(seen)
+
+
 def replay_witnesses(ctx: Ctx):
     """the three known aliasing defects, re-derived on the real objects"""
     seen = {}
@@ -1001,34 +2187,44 @@ def correspond(ctx: Ctx, n_hist: int, length: int):
             if fn.endswith(".json"):
                 ops = json.load(open(os.path.join(corpus, fn)))["history"]
                 hists.append(ops)
-                reals.append(run_ops(ops, False))
+                reals.append(run_flags(ops))
                 ctx.count("source", "corpus")
     for ops in WITNESSES.values():
         hists.append(ops)
-        reals.append(run_ops(ops, False))
+        reals.append(run_flags(ops))
+    for ops in named_sweeps():
+        hists.append(ops)
+        reals.append(run_flags(ops))
+        ctx.count("source", "named-sweep")
     for i in range(n_hist):
         profile = ["np", "par", "lm", "mixed", "mixed"][i % 5]
-        ops, outs = gen_history(rng, rng.randint(length // 2, length), profile)
+        ops, outs, flags = gen_history(rng, rng.randint(length // 2, length), profile)
         hists.append(ops)
-        reals.append(outs)
+        reals.append((outs, flags))
         ctx.count("profile", profile)
     models = model_run(ctx, hists)
     n_safe = n_unsafe_diff = 0
-    for ops, real, m in zip(hists, reals, models):
+    for ops, (real, flags), m in zip(hists, reals, models):
+        report_flags(ctx, ops, flags)
         oracle = run_ops(ops, True)
-        cr = canon_transcript(real, False, ops=ops)
-        cm = canon_transcript(m["impl"], True, ops=ops)
-        cs = canon_transcript(m["spec"], True, ops=ops)
-        co = canon_transcript(oracle, False, ops=ops)
+        vops, vreal = model_view(ops, real)
+        _, voracle = model_view(ops, oracle)
+        cr = canon_transcript(vreal, False, ops=vops)
+        cm = canon_transcript(m["impl"], True, ops=vops)
+        cs = canon_transcript(m["spec"], True, ops=vops)
+        co = canon_transcript(voracle, False, ops=vops)
         safe = all(m["safe"])
         key = tuple(ops)
         for op in ops:
-            ctx.count("op", op.split(":")[0])
+            f_ = op.split(":")
+            ctx.count("op", f_[0])
+            if f_[0] in ("bind", "stBind") and len(f_) > 3:
+                ctx.count("bind_form", f_[3])
         for o in cr:
             if isinstance(o, str) and o.startswith("err:"):
                 ctx.count("outcome", o)
         ctx.count("history", "alias-free" if safe else "has-aliasing-step")
-        for op, ok_ in zip(ops, m["safe"]):
+        for op, ok_ in zip(vops, m["safe"]):
             if not ok_:
                 ctx.count("aliasing_step", op.split(":")[0])
         ctx.case(key, nontrivial=len(ops) > 3,
@@ -1037,7 +2233,7 @@ def correspond(ctx: Ctx, n_hist: int, length: int):
         # K: the model (with the shapes read from the Rust text) reproduces the real objects, defects included
         d = first_diff(strip_hash(cr), cm)
         if d is not None:
-            ctx.disagree("impl-model-vs-real", {"history": ops[: d + 1]}, strip_hash(cr)[d] if d < len(cr) else None,
+            ctx.disagree("impl-model-vs-real", {"history": vops[: d + 1]}, strip_hash(cr)[d] if d < len(cr) else None,
                          cm[d] if d < len(cm) else None)
         # the Lean specification is the same statement of value semantics as the copying oracle
         # once an operation does not apply in the value world (the history was generated along the real run, where an
@@ -1045,7 +2241,7 @@ def correspond(ctx: Ctx, n_hist: int, length: int):
         cut = next((i for i, (x, y) in enumerate(zip(cs, co)) if x == "err:badop" or y == "err:badop"), len(cs))
         d = first_diff(strip_hash(co)[:cut], cs[:cut])
         if d is not None:
-            ctx.disagree("spec-vs-copying-oracle", {"history": ops[: d + 1]}, strip_hash(co)[d] if d < len(co) else None,
+            ctx.disagree("spec-vs-copying-oracle", {"history": vops[: d + 1]}, strip_hash(co)[d] if d < len(co) else None,
                          cs[d] if d < len(cs) else None)
         if safe and not m["refines"]:
             ctx.disagree("refinement-fails-on-safe-history", {"history": ops}, "Safe = true", "refinesB = false")
@@ -1076,11 +2272,12 @@ def search(ctx: Ctx, budget_s: float):
     while time.time() - t0 < budget_s and found < 3:
         batch = []
         for _ in range(20):
-            ops, outs = gen_history(rng, rng.randint(10, 40), rng.choice(["np", "par", "lm", "mixed"]))
-            batch.append((ops, outs))
+            ops, outs, flags = gen_history(rng, rng.randint(10, 40), rng.choice(["np", "par", "lm", "mixed"]))
+            batch.append((ops, outs, flags))
         models = model_run(ctx, [b[0] for b in batch])
-        for (ops, real), m in zip(batch, models):
+        for (ops, real, flags), m in zip(batch, models):
             n += 1
+            found += report_flags(ctx, ops, flags)
             d = real_vs_oracle(ops)
             if d is None:
                 continue
@@ -1123,8 +2320,12 @@ def run(ctx: Ctx, replay=None) -> int:
     escalate = (not ok) or bool(info["py_unknown"])
     if driver_ok:
         with ctx.timed("correspond"):
-            correspond(ctx, ctx.n(120, 2500), ctx.n(36, 60))
-            cache_correspond(ctx, ctx.n(60, 1500))
+            correspond(ctx, ctx.n(200, 2500), ctx.n(36, 60))
+            cache_correspond(ctx, ctx.n(100, 1500))
+            mapping_value_histories(ctx, ctx.n(400, 6000))
+            measure_histories(ctx, ctx.n(200, 3000))
+            state_ctor_checks(ctx)
+            rejected_call_checks(ctx)
             if not ctx.quick():
                 exhaustive(ctx, depth=4, limit=10 ** 6)  # complete: new + 3 operations + observation of every handle
                 exhaustive(ctx, depth=5, limit=10 ** 6, families=("np",))  # the family with the findings: new + 4 operations
@@ -1133,4 +2334,8 @@ def run(ctx: Ctx, replay=None) -> int:
             search(ctx, (4 if ctx.quick() else 60) * (6 if escalate else 1))
     else:
         ctx.notes.append("the model driver does not build with the current Generated shapes; correspondence skipped")
+    keys: dict = {}
+    for w in ctx.witnesses:
+        keys[w["key"]] = keys.get(w["key"], 0) + 1
+    ctx.extra["witness_keys"] = keys
     return ctx.finish()
